@@ -313,6 +313,8 @@ fn topology_family(rep: &mut Report) {
         edges: u32,
         qualified: bool,
         lang: Lang,
+        /// where the workspace sits below the scratch root (a `src` directory *above* the crates must not matter)
+        root: &'static str,
     }
     let thorough = rep.thorough();
     let mut jobs = Vec::new();
@@ -332,7 +334,13 @@ fn topology_family(rep: &mut Report) {
                     if k > kmax || (qualified && edges == 0) {
                         continue;
                     }
-                    jobs.push(Topo { k, edges, qualified, lang });
+                    jobs.push(Topo { k, edges, qualified, lang, root: "ws" });
+                    if k <= 3 {
+                        jobs.push(Topo { k, edges, qualified, lang, root: "checkout/src/proj/ws" });
+                    }
+                    if k <= 2 {
+                        jobs.push(Topo { k, edges, qualified, lang, root: "src" });
+                    }
                 }
             }
         }
@@ -367,9 +375,9 @@ fn topology_family(rep: &mut Report) {
                 }
             }
             let n = i + 1;
-            files.push((format!("ws/k{n}/src/lib.rs"), format!("{uses}#[typeshare]\npub struct T{n} {{\n{fields}}}\n")));
+            files.push((format!("{}/k{n}/src/lib.rs", t.root), format!("{uses}#[typeshare]\npub struct T{n} {{\n{fields}}}\n")));
             // a second file of the same crate, deeper, referring to the crate's own type
-            files.push((format!("ws/k{n}/src/sub/more.rs"), format!("use crate::T{n};\n#[typeshare]\npub struct Extra{n} {{\n    pub t: T{n},\n}}\n")));
+            files.push((format!("{}/k{n}/src/sub/more.rs", t.root), format!("use crate::T{n};\n#[typeshare]\npub struct Extra{n} {{\n    pub t: T{n},\n}}\n")));
         }
         files
     };
@@ -382,13 +390,13 @@ fn topology_family(rep: &mut Report) {
         sc.mkdir("out");
         let args = cli::lang_args(t.lang);
         let mut margs = args.clone();
-        margs.extend([s("-d"), sc.path("out").to_string_lossy().into_owned(), sc.path("ws").to_string_lossy().into_owned()]);
+        margs.extend([s("-d"), sc.path("out").to_string_lossy().into_owned(), sc.path(t.root).to_string_lossy().into_owned()]);
         let r = run_cli(&margs, &sc.root, &[], cli::TIMEOUT);
         let files: BTreeMap<String, String> = cli::snapshot(&sc.path("out")).into_iter().map(|(k, v)| (k, String::from_utf8_lossy(&v).into_owned())).collect();
         let single_path = sc.path(&format!("single/types.{}", t.lang.ext()));
         sc.mkdir("single");
         let mut sargs = args.clone();
-        sargs.extend([s("-o"), single_path.to_string_lossy().into_owned(), sc.path("ws").to_string_lossy().into_owned()]);
+        sargs.extend([s("-o"), single_path.to_string_lossy().into_owned(), sc.path(t.root).to_string_lossy().into_owned()]);
         let r2 = run_cli(&sargs, &sc.root, &[], cli::TIMEOUT);
         Obs { class: r.class(), stderr: r.stderr.chars().take(800).collect(), files, single: std::fs::read_to_string(&single_path).unwrap_or_default(), single_class: r2.class(), argv: margs }
     });
@@ -402,7 +410,7 @@ fn topology_family(rep: &mut Report) {
         }
         let out_deg_max = (0..t.k).map(|i| es.iter().filter(|e| e.0 == i).count()).max().unwrap_or(0);
         let in_deg_max = (0..t.k).map(|i| es.iter().filter(|e| e.1 == i).count()).max().unwrap_or(0);
-        let shape = format!("crates={}|edges={}|max_out={out_deg_max}|max_in={in_deg_max}|qualified={}", t.k, es.len(), t.qualified as u8);
+        let shape = format!("crates={}|edges={}|max_out={out_deg_max}|max_in={in_deg_max}|qualified={}|root={}", t.k, es.len(), t.qualified as u8, match t.root { "ws" => "plain", "src" => "directory-named-src", _ => "below-an-outer-src" });
         let ws = ws_of(t);
         let detail = |what: &str| json!({"argv": o.argv, "edges": es.iter().map(|(a, b)| format!("T{}->T{}", a + 1, b + 1)).collect::<Vec<_>>(), "workspace": ws.iter().map(|(p, s)| json!({"path": p, "source": s})).collect::<Vec<_>>(), "generated_files": o.files, "stderr": o.stderr, "observation": what});
         judgements += 1;
@@ -413,7 +421,7 @@ fn topology_family(rep: &mut Report) {
         let expected_files: BTreeSet<String> = (1..=t.k).map(|n| pipeline::out_file_name(lang, &format!("k{n}"))).collect();
         let got_files: BTreeSet<String> = o.files.keys().filter(|k| *k != "Codable.swift").cloned().collect();
         if got_files != expected_files {
-            rep.vios.add(Violation { sig: format!("C14|{}|topology|file-set|crates={}", lang.name(), t.k), detail: detail(&format!("expected files {expected_files:?}, got {got_files:?}")) });
+            rep.vios.add(Violation { sig: format!("C14|{}|topology|file-set|crates={}|root={}", lang.name(), t.k, match t.root { "ws" => "plain", "src" => "directory-named-src", _ => "below-an-outer-src" }), detail: detail(&format!("expected files {expected_files:?}, got {got_files:?}")) });
             continue;
         }
         let mut parsed: BTreeMap<String, OutFile> = BTreeMap::new();
@@ -495,7 +503,7 @@ fn topology_family(rep: &mut Report) {
             }
         }
     }
-    rep.cov("topologies", json!({"workspaces": jobs.len(), "with_cross_crate_references": with_edges, "crates": if thorough { "1..=5 (TS, Kotlin), 1..=4 (others)" } else { "1..=4 (TS, Kotlin), 1..=3 (others)" }, "edge_sets": "every subset of {i -> j : i < j}", "reference_styles": ["use + bare name", "qualified path"], "files_per_crate": 2, "judgements": judgements}));
+    rep.cov("topologies", json!({"workspaces": jobs.len(), "with_cross_crate_references": with_edges, "crates": if thorough { "1..=5 (TS, Kotlin), 1..=4 (others)" } else { "1..=4 (TS, Kotlin), 1..=3 (others)" }, "edge_sets": "every subset of {i -> j : i < j}", "reference_styles": ["use + bare name", "qualified path"], "files_per_crate": 2, "workspace_location": ["<scratch>/ws", "<scratch>/checkout/src/proj/ws (k <= 3)", "<scratch>/src (k <= 2)"], "judgements": judgements}));
     rep.cov_add("evaluations", judgements);
     rep.cov_add("states", jobs.len() as u64);
     rep.cov_add("transitions", jobs.len() as u64 * 2);
